@@ -30,6 +30,9 @@ type GConf struct {
 	VPN       *GVPN
 	VRF       string // IOS: all managed interfaces and routes belong to this VRF
 	IOSCrypto *GIOSCrypto
+	// IOS: order in which the Netspoc file lists the interfaces
+	// (indexes into Intfs); the device always lists them by number.
+	Perm []int
 }
 
 func (c *GConf) clone() *GConf {
@@ -46,6 +49,7 @@ func (c *GConf) clone() *GConf {
 	n.Extra = append(n.Extra, c.Extra...)
 	n.VPN = c.VPN.clone()
 	n.IOSCrypto = c.IOSCrypto.clone()
+	n.Perm = append(n.Perm, c.Perm...)
 	return n
 }
 
@@ -115,7 +119,15 @@ func (c *GConf) Text(device bool) string {
 		}
 	}
 	b.WriteString(c.IOSCrypto.text())
-	for i, n := range c.Intfs {
+	order := make([]int, len(c.Intfs))
+	for i := range order {
+		order[i] = i
+	}
+	if !device && len(c.Perm) == len(c.Intfs) {
+		order = c.Perm
+	}
+	for _, i := range order {
+		n := c.Intfs[i]
 		fmt.Fprintf(&b, "interface %s\n", n)
 		if c.VRF != "" {
 			fmt.Fprintf(&b, " ip vrf forwarding %s\n", c.VRF)
@@ -384,6 +396,9 @@ func (g *Gen) Target() *GConf {
 				c.Routes = append(c.Routes, fmt.Sprintf("ip route vrf V1 %s 255.255.255.0 10.9.%d.%d", a, g.Rng.Intn(3), 1+g.Rng.Intn(200)))
 			}
 		}
+	}
+	if g.Kind == "ios" && len(c.Intfs) > 1 && g.Rng.Intn(2) == 0 {
+		c.Perm = g.Rng.Perm(len(c.Intfs))
 	}
 	if g.Kind == "ios" && !g.Small && g.WithVPN && g.Rng.Intn(3) == 0 {
 		g.targetIOSCrypto(c, c.Intfs[len(c.Intfs)-1])
